@@ -159,6 +159,49 @@ class Events:
         core.hir_walk(e, visit)
 
 
+_WRAP = {}
+
+
+def transform_wrapper(facts, path):
+    """If crate fn `path` only forwards to Engine::fft / Engine::ifft, return
+    (kind, {role: own param position}) for roles data,pos,size,truncated; else None."""
+    key = (id(facts), path)
+    if key in _WRAP:
+        return _WRAP[key]
+    res = None
+    fn = facts.fns.get(path)
+    if fn is not None:
+        eng = [(b, t) for b, t in fn.body.calls() if t['callee'].get('decl') in ('engine::Engine::fft', 'engine::Engine::ifft')]
+        others = [(b, t) for b, t in fn.body.calls() if t['callee'].get('local') and t['callee'].get('decl') not in ('engine::Engine::fft', 'engine::Engine::ifft')]
+        if len(eng) == 1 and not others:
+            t = eng[0][1]
+            pn = fn.param_names()
+            pos = {}
+            for role, ai in (('data', 1), ('pos', 2), ('size', 3), ('truncated', 4)):
+                c = fn.body.canon_op(t['args'][ai])
+                if c[0] == 'param' and c[1] in pn:
+                    pos[role] = pn.index(c[1])
+            if len(pos) == 4:
+                res = (t['callee']['decl'].split('::')[-1], pos)
+    _WRAP[key] = res
+    return res
+
+
+def transform_call(facts, n, env):
+    """(kind, data, pos, size, truncated) if HIR call node n is an FFT/IFFT (direct or through a forwarding wrapper)"""
+    path, args = call_info(n, env)
+    if path in ('engine::Engine::ifft', 'engine::Engine::fft') and len(args) >= 5:
+        return (path.split('::')[-1], args[1], args[2], args[3], args[4])
+    w = transform_wrapper(facts, path) if isinstance(path, str) else None
+    if w:
+        kind, pos = w
+        try:
+            return (kind, args[pos['data']], args[pos['pos']], args[pos['size']], args[pos['truncated']])
+        except IndexError:
+            return None
+    return None
+
+
 def call_info(n, env):
     """(callee path, [canonical args incl. receiver])"""
     if n['k'] == 'mcall':
@@ -200,12 +243,9 @@ def ifft_rule(ctx, facts, cfg):
         for e in ev.events:
             if e['kind'] != 'call':
                 continue
-            path, args = call_info(e['node'], e['env'])
-            if path == 'engine::Engine::ifft' and len(args) >= 5:
-                # recv, data, pos, size, truncated, skew
-                iffts.append((e, args[1], args[2], args[3], args[4]))
-            elif path == 'engine::utils::ifft_skew_end' and len(args) >= 5:
-                iffts.append((e, args[1], args[2], args[3], args[4]))
+            tc = transform_call(facts, e['node'], e['env'])
+            if tc and tc[0] == 'ifft':
+                iffts.append((e, tc[1], tc[2], tc[3], tc[4]))
         for (e, data, pos, size, trunc) in iffts:
             if lin(trunc) == lin(size):
                 ctx.ok(R, '%s:full:%s@%s' % (core.short(p), hshow(pos), cfg), None, nontrivial=False)
@@ -311,14 +351,13 @@ def tiling_rule(ctx, facts, cfg):
         first_tx = None
         for e in ev.events:
             if e['kind'] == 'call':
-                path, args = call_info(e['node'], e['env'])
-                if path in ('engine::Engine::ifft', 'engine::Engine::fft', 'engine::utils::ifft_skew_end', 'engine::utils::fft_skew_end'):
+                if transform_call(facts, e['node'], e['env']):
                     first_tx = e
                     break
         if first_tx is None:
             ctx.violation(R, 'no-transform', 'no IFFT/FFT call found in %s' % p, fn=p, cfg=cfg)
             continue
-        data = strip_mutref(call_info(first_tx['node'], first_tx['env'])[1][1])
+        data = strip_mutref(transform_call(facts, first_tx['node'], first_tx['env'])[1])
         regions = []   # (start lin, end lin|None, descr, line)
         for e in ev.events:
             if e['order'] >= first_tx['order']:
@@ -432,11 +471,10 @@ def handover_rule(ctx, facts, cfg):
             gerrs, goks = core.result_exits(gb)
             gok = [b for (b, k, d) in goks if k == 'ctor'] + [b for (b, k, d) in goks if k != 'ctor']
             pname = g.param_names()[arg_i] if arg_i < len(g.param_names()) else None
+            from . import roles as roles_mod
+            full_reset = roles_mod.roles(facts).fn.get(('enc' if work_adt == roles_mod.ENC_WORK else 'dec') + '.reset')
             resets = [(b, t2) for b, t2 in gb.calls()
-                      if facts.fns.get(t2['callee'].get('path')) is not None
-                      and facts.fns[t2['callee'].get('path')].impl_self_adt == work_adt
-                      and len(facts.fns[t2['callee'].get('path')].inputs) >= 4
-                      and gb.canon_op(t2['args'][0]) == ('param', pname)]
+                      if t2['callee'].get('path') == full_reset and gb.canon_op(t2['args'][0]) == ('param', pname)]
             if resets and all(any(gb.dominates(b, ob) for b, _ in resets) for ob in gok) and gok:
                 good = True
                 ctx.ok(R, '%s@%s' % (p, cfg), {'via': core.short(q), 'reset_at': resets[0][1]['line']})
